@@ -284,6 +284,25 @@ def _manual_pair(ctx, adt, s, d):
             fo = td.origin(fn)
             nm = (fo.get('c', {}).get('resolved') or fo.get('c', {}).get('fn') or '') if fo['o'] == 'const' else ''
             wrap_ok = nm.replace('packing::', '').endswith('SharedValue::new')
+            if not wrap_ok:
+                # by value: the mapped function (a From impl, a closure, a helper) returns what SharedValue::new returns
+                mb, margs = None, None
+                if fo['o'] == 'const':
+                    mb = f.body_of_fnconst(fo['c'])
+                    margs = [SYM('val')]
+                elif fo['o'] == 'rvalue' and fo['rv'].get('agg') == 'closure' and not fo['rv'].get('ops'):
+                    mb = f.body(fo['rv']['closure'])
+                    margs = [SYM('closure'), SYM('val')]
+                snew = f.one(self_adt='basis::SharedValue', name='new')
+                if mb is not None and snew is not None:
+                    rep.saw(mb)
+                    sx1, sx2 = SymEx(f), SymEx(f)
+                    try:
+                        o1, o2 = sx1.run(mb, margs), sx2.run(snew, [SYM('val')])
+                        wrap_ok = len(o1) == 1 and len(o2) == 1 and not sx1.aborted and not sx2.aborted and \
+                            repr(sx1.deep(o1[0].st, o1[0].ret)) == repr(sx2.deep(o2[0].st, o2[0].ret))
+                    except Exception:      # noqa: BLE001
+                        wrap_ok = False
             src = td.origin(ret['term']['args'][0])
             wrap_ok = wrap_ok and src['o'] == 'call' and src['bb'] == r[0][0]
     rep.check(okr and vis_ok and wrap_ok, 'R1', 'manual-reader:%s' % adt, where(d),
